@@ -172,6 +172,13 @@ class OdxLinkDatabase:
     def __init__(self) -> None:
         self._db: Dict[OdxDocFragment, Dict[str, Any]] = {}
 
+    def __copy__(self) -> "OdxLinkDatabase":
+        # the per-fragment dictionaries must not be shared with the
+        # copy, else updating the copy also changes the original
+        result = OdxLinkDatabase()
+        result._db = {doc_frag: dict(frag_db) for doc_frag, frag_db in self._db.items()}
+        return result
+
     @overload
     def resolve(self, ref: OdxLinkRef, expected_type: None = None) -> Any:
         ...
